@@ -10,6 +10,7 @@ sys.path.insert(0, os.path.dirname(os.path.abspath(__file__)))
 from wrapsa.rules_matlab import mini_exec, _PathEval, _Raised   # noqa: E402
 
 CASES = [
+    ("def f(xs, sep):\n    from functools import reduce\n    def glue(a, b):\n        return a + sep + b\n    return reduce(glue, xs), reduce(lambda a, b: a + len(b), xs, 0), reduce(glue, xs[:1])", [["ab", "c", "def"], "-"]),
     ("def f(xs, ys):\n    a = list(xs)\n    a[1:1] = ys\n    b = list(xs)\n    b[:2] = ys[:1]\n    c = list(xs)\n    c[len(c):] = ys\n    d = list(xs)\n    d[::2] = [0, 0]\n    return a, b, c, d", [[1, 2, 3], [8, 9]]),
     ("def f(n, xs):\n    out = []\n    for x in xs:\n        out.append((0 <= x < n, n > x >= 1 != 2, 1 < x < 3 < n, x == 2 == n - 1))\n    return out", [3, [0, 1, 2, 3, -1]]),
     ("def f(xs):\n    out = []\n    for i, x in enumerate(xs):\n        if x % 2:\n            continue\n        out.append((i, x))\n    return out\n", [[1, 2, 3, 4]]),
